@@ -83,6 +83,34 @@ theorem switch_decision_table (act : SwAction) (cond : SwCond) (vo : Option Vaca
 
 theorem vacancyOf_eq (v : Option Value) : vacancyOf v = (Vacancy.of v).getD .unset := rfl
 
+/-- the constants of `initial/tilde.rs` as the code has them today (generated on every run) are the ones XCU 2.6.1 and
+    the yash documentation name: the variable `HOME`, the tilde itself as stand-in and as kept prefix, the slash,
+    characters that are unquoted results of a hard expansion, a quoting `"` as the mark of an empty pathname -/
+theorem tilde_constants_today :
+    Generated.ExpansionTables.tildeHomeVar = "HOME" ∧ Generated.ExpansionTables.tildeHomeFallback = ['~'] ∧
+    Generated.ExpansionTables.tildeUnknownPrefix = ['~'] ∧ Generated.ExpansionTables.tildeSlash = '/' ∧
+    (∀ c, hardChar c = protectedChar c) ∧ tildeDummyQuote = emptyPathnameMark :=
+  ⟨rfl, rfl, rfl, rfl, fun _ => rfl, rfl⟩
+
+/-- `tilde::expand` = the declarative tilde expansion: directory looked up as XCU 2.6.1 says, one trailing slash
+    dropped before a slash, the prefix itself where the result is unspecified, a dummy quote for an empty result -/
+theorem expandTilde_eq_posixTilde (env : Env) (name : List Char) (slash : Bool) :
+    expandTilde env name slash = posixTilde env name slash := by
+  obtain ⟨h1, h2, h3, h4, h5, h6⟩ := tilde_constants_today
+  have hbody : tildeStrip (tildeBody env name) slash = tildeText env name slash := by
+    unfold tildeBody tildeText tildeDir tildeStrip
+    rw [h1, h2, h3, h4]
+    by_cases hn : name = []
+    · subst hn
+      cases env.getScalar "HOME" <;> simp
+    · have hne : name.isEmpty = false := by cases name <;> simp_all
+      cases env.homes.lookup name <;> simp [hn, hne]
+  unfold expandTilde tildeFinish posixTilde
+  rw [hbody, h6]
+  have h5' : hardChar = protectedChar := funext h5
+  rw [h5']
+  cases tildeText env name slash <;> simp
+
 mutual
   theorem textUnit_den : ∀ (u : TextUnit) (env : Env) (ws : Bool),
       den (expandTextUnit env ws u) = posixTextUnit env ws u
@@ -196,6 +224,8 @@ mutual
       exact textUnit_den u env ws
     | .sq s, env, ws => by simp [expandWordUnit, posixWordUnit, singleQuote, Phrase.toFields]
     | .dsq s, env, ws => by simp [expandWordUnit, posixWordUnit, dollarSingleQuote, Phrase.toFields]
+    | .tilde name slash, env, ws => by
+      simp only [expandWordUnit, posixWordUnit, den_ok, Phrase.toFields, expandTilde_eq_posixTilde]
     | .dq t, env, ws => by
       simp only [expandWordUnit, posixWordUnit]
       by_cases hn : t.isNil = true
